@@ -118,10 +118,6 @@ void h_run_all_logic(void) {
     g_tk[2].node.next = NULL; g_tk[2].node.prev = NULL; g_tk[3].node.next = NULL; g_tk[3].node.prev = NULL;
     size_t a0 = g_asap_len, l0 = g_tl_len, q0 = g_q_size;
     s_run_all(&g_sc, t, st);
-    if (a0 == 0 && l0 == 0 && q0 == 0) CANARY("nothing pending");
-    else if (g_moved_timed == 0 && a0 > 0) CANARY("only run-now tasks run");
-    else if (g_moved_timed == 0) CANARY("no timed task due");
-    else if (l0 > 0 && g_tl_len < l0 && g_q_size < q0) CANARY("tasks taken from both the overflow list and the heap");
-    else if (g_moved_timed >= 3 && g_q_size > 0) CANARY("several heap tasks run, later ones stay");
+    if (l0 > 0 && g_tl_len < l0 && g_q_size < q0 && a0 > 0) CANARY("run-now tasks and tasks from both the overflow list and the heap run");
     else CANARY("other");
 }
